@@ -98,6 +98,10 @@ def family(ctx: Ctx) -> List[Tuple[str, str, Dict[str, Any]]]:
 
 def run(ctx: Ctx) -> int:
     outcome = Outcome()
+    from props import selftest
+
+    st_progs, st_paths, st_errors = selftest.run()
+    outcome.harness_errors += ["encoder self-test: " + e for e in st_errors]
     text = gen_int_fields.generate(VERIF, ctx.tier)
     kres = chrunner.run_module(text, f"k_c06_{ctx.tier}", timeout=40 if ctx.quick else 120)
     kcounts = common.k_results_to_outcome(ctx, kres, outcome, "k_c06")
@@ -133,6 +137,7 @@ def run(ctx: Ctx) -> int:
             "constant-universality argument of DESIGN.md section 1 links the K lemmas (all constants, one function) to the S verdicts (alphabet, whole pipeline)",
         ],
     }
+    evidence["coverage"]["encoder_selftest"] = {"programs": st_progs, "paths_replayed": st_paths, "mismatches": len(st_errors)}
     return common.finish(ctx, outcome, evidence)
 
 
